@@ -26,6 +26,10 @@ Loop2    == Ref(<<"@Loop2", "@I">>, <<>>)                                     \*
 Types == << [name |-> "@RecLast", n |-> RecLast], [name |-> "@RecFirst", n |-> RecFirst], [name |-> "@RecMid", n |-> RecMid],
             [name |-> "@Tree", n |-> Tree], [name |-> "@I", n |-> One], [name |-> "@Loop2", n |-> Loop2],
             [name |-> "@K", n |-> Lit(StrD(Sabc), <<R("minLength", NV(N1))>>)],
+            \* recursion that ends in a later or-alternative two types away, and recursion through a key-shortcut property inside an array
+            [name |-> "@TreeN", n |-> Obj(<<P(Kp, Ref(<<"@Branch", "@LeafN">>, <<>>))>>, <<>>)], [name |-> "@Branch", n |-> Obj(<<P(Kx, Ref(<<"@TreeN">>, <<>>))>>, <<>>)],
+            [name |-> "@LeafN", n |-> Lit([t |-> "null"], <<>>)],
+            [name |-> "@Dir", n |-> Obj(<<P(Kc, Arr(<<Obj(<<SC("@K", Ref(<<"@Dir">>, <<>>))>>, <<>>)>>, <<>>))>>, <<>>)],
             [name |-> "@KQ", n |-> Lit(StrD(<<97, 34>>), <<>>)], [name |-> "@KB", n |-> Lit(StrD(<<34, 97, 92>>), <<>>)] >>     \* a"  and  "a\
 Env == [types |-> Types, enums |-> <<[name |-> "@E", items |-> <<NumD(N1), StrD(Sa)>>]>>]
 NamedE == R("enum", [t |-> "name", s |-> "@E"])
@@ -38,6 +42,7 @@ KCtl2  == <<1, 31>>
 Roots == { Obj(<<P(KQuote, One)>>, <<>>), Obj(<<P(KCtl, One)>>, <<>>), Obj(<<P(KCtl2, One), P(Ka, Lit(StrD(KCtl), <<>>))>>, <<>>), Obj(<<P(KBack, One), P(KNl, Two)>>, <<>>), Obj(<<P(KUni, Lit(StrD(KQuote), <<>>))>>, <<>>),
            Ref(<<"@RecLast">>, <<>>), Ref(<<"@RecFirst">>, <<>>), Ref(<<"@RecMid">>, <<>>), Ref(<<"@Tree">>, <<>>),
            Obj(<<P(Ka, Ref(<<"@RecLast">>, <<>>)), P(Kb, One)>>, <<>>), Arr(<<Ref(<<"@RecLast">>, <<>>), One>>, <<>>),
+           Ref(<<"@TreeN">>, <<>>), Obj(<<P(Ka, Ref(<<"@TreeN">>, <<OptR>>)), P(Kb, One)>>, <<>>), Ref(<<"@Dir">>, <<>>), Arr(<<Ref(<<"@Dir">>, <<>>)>>, <<>>),
            Ref(<<"@Loop2">>, <<>>), Obj(<<P(Ka, Ref(<<"@Loop2">>, <<>>))>>, <<>>), Arr(<<Ref(<<"@Loop2">>, <<>>)>>, <<>>),
            Obj(<<SC("@K", One)>>, <<>>), Obj(<<SC("@K", One), P(Kx, Two)>>, <<>>), Obj(<<SC("@KQ", One)>>, <<>>), Obj(<<SC("@KB", One)>>, <<>>),
            Lit(NumD(N1), <<R("enum", [t |-> "list", items |-> <<[t |-> "val", v |-> NumD(N1)], [t |-> "val", v |-> StrD(Sa)]>>])>>),
